@@ -104,6 +104,12 @@ CHECKS = {
         note="'never hangs' is decided by a logical step budget (3e6 + 3e4 x input length), not wall-clock; wall-clock watchdog yields inconclusive only.",
         design="5/C14",
     ),
+    "C17": dict(
+        technique="reference-model monitor: complete affine group tables of enumerated small prime-order curves compared with PointJacobi/Point results in many projective representations; OpenSSL differential monitor on the 17 shipped curves",
+        text="On every selected prime-order curve over F_p (p<=43 quick / all ~1000 curves with p<=61 thorough) every ordered pair of group elements is added in 12 combinations of projective representations (incl. library-produced unreduced negative y, equal z, different z, doubled results), every element is multiplied by every scalar 0..2n+1 (0..4n+3 without order / affine) in five representations incl. the precompute path, mul_add over edge scalar pairs, affine Point arithmetic and equality across representations, all compared with the enumerated group table. On the shipped curves k*G, k*Q, mul_add, negation/scale combinations and ECDH are compared with OpenSSL for edge and random scalars, and off-curve / out-of-range (incl. congruent) / zero / other-curve / infinity points are offered to every public-key loader and to ECDH.",
+        note="Small curves are complete; shipped curves are sampled. Results compared as group elements (coordinates mod p).",
+        design="5/C17",
+    ),
 }
 
 NOT_YET = "check not built yet in this session (see DESIGN.md section 5 for the planned monitor)"
